@@ -255,8 +255,11 @@ class DM14Server:
         if pgn != j1939.ParameterGroupNumber.PGN.DM16 or sa != self.sa:
             return
 
-        length = min(data[0], len(data) - 1)
-        self.data_queue.put(data[1 : length + 1])
+        if self.command == j1939.Command.WRITE.value:
+            # hand the written data to respond(); for a read this callback is only the
+            # end of message acknowledge of the DM16 we sent ourselves
+            length = min(data[0], len(data) - 1)
+            self.data_queue.put(data[1 : length + 1])
         self._ca.unsubscribe(self._parse_dm16)
         self._ca.subscribe(self.parse_dm14)
         self.state = ResponseState.SEND_OPERATION_COMPLETE
